@@ -220,6 +220,7 @@ def gen_scenario(seed: int, profile: Optional[dict] = None) -> dict:
         "lazy": rng.random() < 0.7 if prof["lazy"] is None else prof["lazy"],
         "debug": rng.random() < prof["debug"],
         "order_seed": rng.randrange(1 << 20) if rng.random() < 0.7 else None,
+        "merge_connects": rng.random() < 0.4,
     }
     scn["config"] = cfg
     scn["gen"] = {"seed": seed}
